@@ -296,7 +296,7 @@ class FluxSurfaceAdvection:
         assert grid.getLayout(grid.currentLayout).dims_order == (0, 3, 1, 2)
         for i, _ in grid.getCoords(0):  # r
             for j, _ in grid.getCoords(1):  # v
-                self.step(grid.get2DSlice(i, j), j)
+                self.step(grid.get2DSlice(i, j), j, i)
 
 
 class VParallelAdvection:
